@@ -23,6 +23,16 @@ def configs(ctx):
                     for (o, r) in (lay if (b, q) == pairs[0] else lay[:1]):
                         items.append((fn, b, q, H, W, o, r, 'plain', mask))
                 items.append((fn, b, q, H, W, 2, -1, 'nohigh', 1))
+    # the zero-padding mode of the level-1 stage (used by the scattering layers): plain, skipped and absent bandpass
+    for (b, q) in pairs[:2] if ctx.quick else pairs[:6]:
+        for (H, W) in ((8, 12), (6, 10)):
+            for variant in ('plain', 'skip'):
+                items.append(('FWD_J1', b, q, H, W, 2, -1, variant, 1, 'zero'))
+                items.append(('FWD_J2PLUS', b, q, H, W, 2, -1, variant, 1, 'zero'))
+            for mask in (1, 3):
+                items.append(('INV_J1', b, q, H, W, 2, -1, 'plain', mask, 'zero'))
+            items.append(('INV_J1', b, q, H, W, 2, -1, 'nohigh', 1, 'zero'))
+            items.append(('INV_J2PLUS', b, q, H, W, 2, -1, 'plain', 3, 'zero'))
     return items
 
 
